@@ -588,10 +588,12 @@ class Inliner:
                 if mode2 == "arg0" and self.resolve(call2, func) is not None:
                     call, mode = call2, mode2
                     h = self.resolve(call, func)
-            if h is None and depth < self.max_depth and isinstance(st, (ast.Expr, ast.Assign, ast.Return, ast.If)) and not isinstance(st, InlineBlock):
+            if h is None and depth < self.max_depth and isinstance(st, (ast.Expr, ast.Assign, ast.Return, ast.If, ast.AugAssign)) \
+                    and not isinstance(st, InlineBlock):
                 # the helper call is the first thing the statement's expression evaluates (`failed = not self.__accept(...)`)
                 root = st.test if isinstance(st, ast.If) else st.value
-                if root is not None and not (isinstance(st, ast.Assign) and not all(isinstance(t, ast.Name) for t in st.targets)):
+                if root is not None and not (isinstance(st, ast.Assign) and not all(isinstance(t, ast.Name) for t in st.targets)) \
+                        and not (isinstance(st, ast.AugAssign) and not isinstance(st.target, ast.Name)):
                     for node, par, fld, idx in _first_evaluated(root):
                         if isinstance(node, ast.Call):
                             hh = self.resolve(node, func)
